@@ -31,6 +31,8 @@ PURE_FOREIGN = [
     r'^std::option::Option::<T>::as_ref$',
     r'^std::option::Option::<T>::(unwrap|expect|cloned|copied)$',   # read-only (may panic: C03 ledger)
     r'^robust::orient2d$',
+    r'^std::cell::UnsafeCell::<T>::get$',
+    r'^<std::boxed::Box<T, A> as std::ops::Drop>::drop$',     # frees the allocation of a moved-out box
     r'^std::cmp::PartialEq::(eq|ne)$',
     r'^std::cmp::PartialOrd::(lt|le|gt|ge|partial_cmp)$',
     r'^<geo_types::Coord<T> as std::cmp::PartialEq>::(eq|ne)$',
@@ -46,6 +48,18 @@ PURE_FOREIGN = [
     r'^geo_types::(Polygon|LineString|MultiPolygon)::<T>::(exterior|interiors|lines)$',
 ]
 _PURE_RE = [re.compile(p) for p in PURE_FOREIGN]
+
+
+# read-only callees whose result depends on the argument values alone (not on memory behind them)
+FUNCTIONAL = [re.compile(p) for p in [
+    r'^std::cell::UnsafeCell::<T>::get$', r'^robust::orient2d$', r'^std::rc::Weak::<T>::new$',
+    r'^std::ops::(Add|Sub|Mul|Div|Neg)::(add|sub|mul|div|neg)$',
+    r'^num_traits::(Zero::zero|One::one|Float::(min|max|infinity|neg_infinity|abs))$',
+    r'^num_traits::float::Float::(min|max|infinity|neg_infinity|abs)$',
+    r'^num_traits::identities::(Zero::zero|One::one)$', r'^std::convert::Into::into$',
+    r'^float_next_after::NextAfter::next_after$', r'^<f(32|64) as float_next_after::NextAfter>::next_after$',
+    r'^boolean::helper::NextAfter::nextafter$', r'^<f(32|64) as boolean::helper::NextAfter>::nextafter$',
+]]
 
 
 def foreign_pure(name):
@@ -93,6 +107,13 @@ class Purity:
                         changed = True
                         break
         self.pure = pure
+
+    def is_functional(self, name, term=None):
+        if any(r.match(name) for r in FUNCTIONAL):
+            return True
+        if term is not None and any(r.match(callee_decl(term)) for r in FUNCTIONAL):
+            return True
+        return False
 
     def is_pure(self, name, term=None):
         if name in self.pure:
